@@ -1,3 +1,64 @@
 import Driver.Common
-/-! Driver for property C05 (stub: the model for this property is not built yet). -/
-def main : IO Unit := Driver.run (fun (s : Unit) _ => (s, "unimplemented")) ()
+import TxdbusModel.Wire.Cost
+/-!
+Driver for property C05 (cost model of the decoder).  One operation per line:
+
+  u <chk> <le> <off> <sig strhex> <data hex>
+        marshal.unmarshal(sig, data, off, lendian=le, oobFDs=[]); chk=1 the repaired array loop, chk=0 the loop before 635620f
+     -> `<status> <consumed> <steps> <depth> <frames> <size>`
+  p <fix> <data hex>
+        message.parseMessage(data, []); fix=1 the repaired code (signature field must be a str of <= 255 chars)
+     -> `<status> <steps> <depth> <frames> <size> <body>`      body: 0 none, 1 decoded, 2 signature field rejected
+  b <sig strhex> <data hex> <off>     -> `<fuelFor> <stepBound>`   the proved bounds
+  pb <data hex>                        -> `<parseFuel> <parseStepBound>`
+
+status: `ok` | `err:<ExceptionClass>` | `fuel` (the model ran out of fuel: never, by unmarshal_fuel_adequate)
+-/
+open Txdbus Txdbus.Cost Driver
+
+def errName : Err → String
+  | .struct => "struct.error"
+  | .key => "KeyError"
+  | .index => "IndexError"
+  | .type => "TypeError"
+  | .runtime => "RuntimeError"
+  | .unicode => "UnicodeDecodeError"
+  | .marshalling => "MarshallingError"
+
+def stName : Status → String
+  | .ok => "ok"
+  | .err e => "err:" ++ errName e
+  | .outOfFuel => "fuel"
+
+def flag? (s : String) : Option Bool :=
+  if s == "1" then some true else if s == "0" then some false else none
+
+def step (line : String) : String :=
+  match words line with
+  | ["u", chk, le, off, sigh, datah] =>
+    match flag? chk, flag? le, off.toNat?, hexToChars? sigh, hexToBytes? datah with
+    | some chk, some le, some off, some sig, some data =>
+      let r := unmarshal genTables chk (fuelFor sig data) sig data off le
+      s!"{stName r.st} {r.off - off} {r.steps} {r.depth} {r.frames} {r.size}"
+    | _, _, _, _, _ => "bad-input"
+  | ["p", fix, datah] =>
+    match flag? fix, hexToBytes? datah with
+    | some fix, some data =>
+      let hf := Txdbus.Gen.C05Wire.headerFormat
+      let fuel := parseFuel hf data + 2 * data.length
+      let r := parseMessage genTables hf Txdbus.Gen.C05Wire.mtypeKeys Txdbus.Gen.C05Wire.signatureCode fix fuel data
+      s!"{stName r.st} {r.steps} {r.depth} {r.frames} {r.size} {r.body}"
+    | _, _ => "bad-input"
+  | ["b", sigh, datah, off] =>
+    match hexToChars? sigh, hexToBytes? datah, off.toNat? with
+    | some sig, some data, some off => s!"{fuelFor sig data} {stepBound sig data off}"
+    | _, _, _ => "bad-input"
+  | ["pb", datah] =>
+    match hexToBytes? datah with
+    | some data =>
+      let hf := Txdbus.Gen.C05Wire.headerFormat
+      s!"{parseFuel hf data} {parseStepBound hf data}"
+    | _ => "bad-input"
+  | _ => "bad-input"
+
+def main : IO Unit := Driver.run (fun (s : Unit) line => (s, step line)) ()
